@@ -302,6 +302,17 @@ func genSpec(rt *rapid.T, t schema.Type, v *aval.V) []string {
 			p = []string{rapid.SampledFrom([]string{"nosuch", "req", "opt", "tail", "s", "i", "leaf", "n"}).Draw(rt, "seg")}
 			if rapid.Bool().Draw(rt, "deeper") {
 				p = append(p, rapid.SampledFrom([]string{"*", "s", "x", "leaf"}).Draw(rt, "seg2"))
+				// like above: no trailing array-item wildcard / union member (an array of unions would be left with
+				// invalid empty unions)
+				last := ""
+				walkKinds(t, p, func(i int, kind string) {
+					if i == len(p)-1 {
+						last = kind
+					}
+				})
+				if last == "item" || last == "member" {
+					p = p[:len(p)-1]
+				}
 			}
 		}
 		d := strings.Join(p, "/")
